@@ -50,6 +50,7 @@ type backend struct {
 	splOK bool
 	calls []Call
 	nSpl  int
+	nRows int // sample rows that reached the client
 }
 
 var be = &backend{tsOK: true, splOK: true}
@@ -135,6 +136,7 @@ func (fakeClient) Do(ctx context.Context, q ch.Query) error {
 		c.OK = be.splOK
 		be.nSpl++
 		tp, fp, ts := colU8(cols["type"]), colU64(cols["fingerprint"]), colI64(cols["timestamp_ns"])
+		be.nRows += len(ts)
 		if len(tp) != len(fp) || len(fp) != len(ts) {
 			panic(fmt.Sprintf("samples block with unequal columns %d %d %d", len(tp), len(fp), len(ts)))
 		}
@@ -234,8 +236,10 @@ func push(r *mux.Router, body string, tsOK, splOK bool) (int, []Call) {
 
 // an open request: its body is a pipe the harness writes to piece by piece
 type flight struct {
-	pw   *io.PipeWriter
-	code chan int
+	pw     *io.PipeWriter
+	code   chan int
+	unsent int  // sample rows parsed and not yet sent (the chunk being filled)
+	failed bool // a chunk sent while the body was open had a failing insert
 }
 
 // begin starts a push whose body so far is the opening of the streams array and the given streams; returns once
@@ -254,36 +258,88 @@ func begin(r *mux.Router, st Step) *flight {
 	full := bodyOf(st)
 	pw.Write([]byte(strings.TrimSuffix(full, "]}")))
 	pw.Write([]byte(" "))
+	f.unsent = nEntries(st)
 	return f
+}
+
+// more continues the body (which ended after a complete stream) with further streams; returns once the parser has
+// consumed them (same synchronisation as begin)
+func (f *flight) more(st Step) {
+	f.pw.Write([]byte("," + streamsJSON(st)))
+	f.pw.Write([]byte(" "))
+	f.unsent += nEntries(st)
 }
 
 // finish closes the body properly (tail "]}") or continues it with bytes that are not JSON
 func (f *flight) finish(tail string, tsOK, splOK bool) (int, []Call) {
-	return collect(tsOK, splOK, func() int {
+	want := f.unsent
+	if tail != "]}" {
+		want = 0
+	}
+	return collectRows(tsOK, splOK, want, f.failed && want > 0, func() int {
 		f.pw.Write([]byte(tail))
 		f.pw.Close()
 		return <-f.code
 	})
 }
 
+// afterFlush: a step that made the parser hand over a chunk while the body stays open has run (collectRows waited
+// for the chunk's sample rows and gave its series insert time to arrive): a new chunk begins
+func (f *flight) afterFlush(calls []Call, tsOK, splOK bool) {
+	got := 0
+	for _, c := range calls {
+		if c.Table == "samples" {
+			got += len(c.Rows)
+		}
+	}
+	if got > 0 {
+		f.unsent -= got
+		f.failed = f.failed || !tsOK || !splOK
+	}
+}
+
 func collect(tsOK, splOK bool, do func() int) (int, []Call) {
+	return collectRows(tsOK, splOK, 1, false, do)
+}
+
+// collectRows runs do with the given scripted outcomes and returns its status and the INSERTs that reached the
+// client because of it. It waits for wantRows sample rows (their insert may still be on its way when the handler
+// has answered already, or - mid-request flush - there is no answer yet); with settleTs it also gives the series
+// insert of the same chunk time to arrive (nothing orders it with the samples insert, and a chunk without series
+// rows makes none).
+func collectRows(tsOK, splOK bool, wantRows int, settleTs bool, do func() int) (int, []Call) {
 	be.mtx.Lock()
 	be.tsOK, be.splOK = tsOK, splOK
 	be.calls = nil
-	n0 := be.nSpl
+	n0 := be.nRows
 	be.mtx.Unlock()
 	code := do()
 	// the handler returns at the first failed insert; the samples insert of the same request may
 	// still be on its way - wait for it so that it is attributed (and scripted) correctly
 	deadline := time.Now().Add(3 * time.Second)
-	for {
+	for wantRows > 0 {
 		be.mtx.Lock()
-		done := be.nSpl > n0
+		done := be.nRows-n0 >= wantRows
 		be.mtx.Unlock()
-		if done || code == 400 || time.Now().After(deadline) {
+		if done || code == 400 || (code >= 200 && code < 300) || time.Now().After(deadline) {
 			break
 		}
 		time.Sleep(200 * time.Microsecond)
+	}
+	if settleTs && code != 400 && !(code >= 200 && code < 300) {
+		grace := time.Now().Add(25 * time.Millisecond)
+		for {
+			be.mtx.Lock()
+			seen := false
+			for _, c := range be.calls {
+				seen = seen || c.Table == "time_series"
+			}
+			be.mtx.Unlock()
+			if seen || time.Now().After(grace) {
+				break
+			}
+			time.Sleep(200 * time.Microsecond)
+		}
 	}
 	time.Sleep(300 * time.Microsecond)
 	be.mtx.Lock()
@@ -295,9 +351,13 @@ func collect(tsOK, splOK bool, do func() int) (int, []Call) {
 // ------------------------------------------------------------------ histories
 
 type Entry struct {
-	Ts int64 `json:"ts"` // ns
-	T  int   `json:"t"`  // 1 log, 2 metric, 0 both
+	Ts  int64 `json:"ts"`            // ns
+	T   int   `json:"t"`             // 1 log, 2 metric, 0 both
+	Big bool  `json:"big,omitempty"` // its log line has bigLine bytes: the stream holding it crosses the 1 MiB flush limit of onEntries
 }
+
+const bigLine = 1100 * 1000
+
 type Stream struct {
 	Ls      int         `json:"ls"`               // index into the label-set pool (when Labels is empty)
 	Labels  [][2]string `json:"labels,omitempty"` // explicit label set
@@ -308,7 +368,10 @@ type Stream struct {
 type Step struct {
 	// push | reset | bad (push whose body is malformed after the streams) | begin (the streams arrive, the body stays
 	// open) | end (the Idx-th open request: the body is closed, the inserts get the scripted outcomes) | abort (the
-	// Idx-th open request: the body continues malformed)
+	// Idx-th open request: the body continues malformed) | beginf (like begin, the LAST stream has a big entry: the parser
+	// sends one chunk while the body stays open; TsOK / SplOK script the inserts of that chunk; Idx = position of the new
+	// open request) | more (the Idx-th open request gets further small streams; nothing is sent) | moref (further streams,
+	// the last one with a big entry: a chunk is sent with the step's outcomes)
 	K       string   `json:"k"`
 	Streams []Stream `json:"streams,omitempty"`
 	Idx     int      `json:"idx,omitempty"`
@@ -386,7 +449,137 @@ func genStream(r *rand.Rand, pref []int) Stream {
 	return s
 }
 
+// small copies of streams for "the same series again": no big entries
+func smallCopy(ss []Stream) []Stream {
+	out := make([]Stream, len(ss))
+	for i, s_ := range ss {
+		out[i] = s_
+		out[i].Entries = append([]Entry(nil), s_.Entries...)
+		for j := range out[i].Entries {
+			out[i].Entries[j].Big = false
+		}
+	}
+	return out
+}
+
+// the last stream gets a big entry (a log line; a metric-only entry becomes a log entry)
+func withBig(r *rand.Rand, ss []Stream) []Stream {
+	out := smallCopy(ss)
+	es := out[len(out)-1].Entries
+	e := &es[r.Intn(len(es))]
+	e.Big = true
+	if e.T == 2 {
+		e.T = r.Intn(2)
+	}
+	return out
+}
+
+// genFlushHist: histories with requests larger than 1 MiB: the parser hands over a chunk (series rows + samples so far)
+// whenever a stream with a big entry has been parsed, its inserts get their own scripted outcomes, the request goes
+// on with further streams (often the same series again), ends or turns out malformed; in between ordinary pushes
+// (often the same series again), other long requests, resets; often the whole long request is repeated.
+func genFlushHist(r *rand.Rand, id int) HCase {
+	c := HCase{ID: id}
+	pref := make([]int, len(pool))
+	for i := range pref {
+		pref[i] = []int{1, 1, 1, 2, 0}[r.Intn(5)]
+	}
+	faulty := r.Intn(5) != 0
+	ok := func(p int) bool { return !faulty || r.Intn(100) < p }
+	newStreams := func() []Stream {
+		var ss []Stream
+		k := 1 + r.Intn(3)
+		for j := 0; j < k; j++ {
+			ss = append(ss, genStream(r, pref))
+		}
+		return ss
+	}
+	type openReq struct{ steps []Step } // the steps that fed the request, for a repetition
+	var open []*openReq
+	var done [][]Step
+	bigs := 0
+	var series []Stream // streams of the long requests so far
+	pick := func() []Stream {
+		if len(series) > 0 && r.Intn(3) != 0 {
+			i := r.Intn(len(series))
+			return smallCopy(series[i : i+1+r.Intn(len(series)-i)])
+		}
+		return newStreams()
+	}
+	add := func(st Step) { c.Steps = append(c.Steps, st) }
+	closeReq := func(k int, abort bool) {
+		if abort {
+			add(Step{K: "abort", Idx: k, TsOK: true, SplOK: true})
+		} else {
+			add(Step{K: "end", Idx: k, TsOK: ok(75), SplOK: ok(88)})
+			done = append(done, open[k].steps)
+		}
+		open = append(open[:k:k], open[k+1:]...)
+	}
+	n := 3 + r.Intn(7)
+	for i := 0; i < n; i++ {
+		x := r.Intn(20)
+		switch {
+		case (x < 4 || len(open) == 0 && len(done) == 0) && bigs < 3 && len(open) < 2:
+			st := Step{K: "beginf", Idx: len(open), Streams: withBig(r, pick()), TsOK: ok(60), SplOK: ok(85)}
+			add(st)
+			open = append(open, &openReq{steps: []Step{st}})
+			series = append(series, st.Streams...)
+			bigs++
+		case x < 10 && len(open) > 0:
+			k := r.Intn(len(open))
+			st := Step{K: "more", Idx: k, Streams: pick(), TsOK: true, SplOK: true}
+			if r.Intn(3) == 0 && bigs < 3 {
+				st = Step{K: "moref", Idx: k, Streams: withBig(r, pick()), TsOK: ok(60), SplOK: ok(85)}
+				bigs++
+			}
+			add(st)
+			open[k].steps = append(open[k].steps, st)
+		case x < 13 && len(open) > 0:
+			closeReq(r.Intn(len(open)), faulty && r.Intn(4) == 0)
+		case x < 15 && len(done) > 0:
+			// the client sends a long request again, handled alone
+			steps := done[r.Intn(len(done))]
+			nb := 0
+			for _, st := range steps {
+				if st.K != "more" {
+					nb++
+				}
+			}
+			if bigs+nb > 3 || len(open) >= 2 {
+				add(Step{K: "push", TsOK: ok(75), SplOK: ok(88), Streams: smallCopy(steps[0].Streams)})
+				continue
+			}
+			bigs += nb
+			k := len(open)
+			for _, st := range steps {
+				st.Idx = k
+				if st.K != "more" {
+					st.TsOK, st.SplOK = ok(85), ok(92)
+				}
+				add(st)
+			}
+			add(Step{K: "end", Idx: k, TsOK: ok(85), SplOK: ok(92)})
+		case x < 16:
+			add(Step{K: "reset"})
+		default:
+			add(Step{K: "push", TsOK: ok(75), SplOK: ok(88), Streams: pick()})
+		}
+	}
+	for len(open) > 0 {
+		closeReq(r.Intn(len(open)), false)
+	}
+	c.Class = "flush"
+	if faulty {
+		c.Class = "flush+faults"
+	}
+	return c
+}
+
 func genHist(r *rand.Rand, id int) HCase {
+	if r.Intn(6) == 0 {
+		return genFlushHist(r, id)
+	}
 	c := HCase{ID: id}
 	pref := make([]int, len(pool))
 	for i := range pref {
@@ -463,7 +656,9 @@ func genHist(r *rand.Rand, id int) HCase {
 	return c
 }
 
-func bodyOf(st Step) string {
+var bigText = strings.Repeat("x", bigLine)
+
+func streamsJSON(st Step) string {
 	var ss []string
 	for _, s := range st.Streams {
 		var m []string
@@ -473,7 +668,9 @@ func bodyOf(st Step) string {
 		var es []string
 		for _, e := range s.Entries {
 			o := `{"ts":"` + strconv.FormatInt(e.Ts, 10) + `"`
-			if e.T == 1 || e.T == 0 {
+			if e.Big && e.T != 2 {
+				o += `,"line":"` + bigText + `"`
+			} else if e.T == 1 || e.T == 0 {
 				o += `,"line":"l"`
 			}
 			if e.T == 2 || e.T == 0 {
@@ -483,7 +680,17 @@ func bodyOf(st Step) string {
 		}
 		ss = append(ss, `{"stream":{`+strings.Join(m, ",")+`},"entries":[`+strings.Join(es, ",")+`]}`)
 	}
-	return `{"streams":[` + strings.Join(ss, ",") + `]}`
+	return strings.Join(ss, ",")
+}
+
+func bodyOf(st Step) string { return `{"streams":[` + streamsJSON(st) + `]}` }
+
+func nEntries(st Step) int {
+	n := 0
+	for _, s := range st.Streams {
+		n += len(s.Entries)
+	}
+	return n
 }
 
 const badTail = `,{"stream":{"a":"b"},"values":[["12","l"],[`
@@ -514,6 +721,25 @@ func runHistCase(r *mux.Router, c *HCase) {
 				code, calls := collect(true, true, func() int { open = append(open, begin(r, *st)); return 400 })
 				c.Obs = append(c.Obs, StepObs{Status: 0, Calls: calls})
 				_ = code
+			case "beginf":
+				st.Idx = len(open)
+				_, calls := collectRows(st.TsOK, st.SplOK, nEntries(*st), true, func() int { open = append(open, begin(r, *st)); return 0 })
+				open[st.Idx].afterFlush(calls, st.TsOK, st.SplOK)
+				c.Obs = append(c.Obs, StepObs{Status: 0, Calls: calls})
+			case "more", "moref":
+				if st.Idx >= len(open) {
+					c.Obs = append(c.Obs, StepObs{Status: -1})
+					continue
+				}
+				f := open[st.Idx]
+				var calls []Call
+				if st.K == "more" {
+					_, calls = collect(true, true, func() int { f.more(*st); return 400 })
+				} else {
+					_, calls = collectRows(st.TsOK, st.SplOK, f.unsent+nEntries(*st), true, func() int { f.more(*st); return 0 })
+				}
+				f.afterFlush(calls, st.TsOK, st.SplOK)
+				c.Obs = append(c.Obs, StepObs{Status: 0, Calls: calls})
 			case "end", "abort":
 				if st.Idx >= len(open) {
 					c.Obs = append(c.Obs, StepObs{Status: -1})
